@@ -31,6 +31,10 @@ def make_config(rng, profile, tier):
     cfg['panel'] = rng.random() < (0.15 if profile != 'est' else (0.12 if cfg['family'] == 'logit' else 0.0))
     # row labels of the tables handed to the library (buggify): positions, a permutation of them, with gaps, shifted
     cfg['index_kind'] = rng.choice(['range', 'range', 'keep', 'gaps', 'offset', 'dup'])
+    if profile != 'est' and rng.random() < 0.3:
+        # declared bounds that the evaluation points do not respect
+        cfg['bounds'] = [rng.choice([None, [-0.05, 0.05], [None, 0.02], [-0.02, None]]) for _ in range(cfg['K'])]
+        cfg['eval_outside_bounds'] = True
     if cfg['panel']:
         cfg['weight'] = None
         cfg['N'] = max(cfg['N'], 3)
@@ -70,8 +74,10 @@ def make_ops(rng, cfg, profile, tier):
                 ops.append({'op': 'RECYCLE_FIXED', 'a': [rng.randrange(64), round(rng.uniform(-0.5, 0.5), 2)]})
             elif r < 0.76:
                 ops.append({'op': 'RECYCLE_PREFIX', 'a': [rng.randrange(64), rng.randrange(1 << 16)]})
-            elif r < 0.79:
+            elif r < 0.78:
                 ops.append({'op': 'CHANGE_INIT_KEPT', 'a': [rng.randrange(64), rng.randrange(1 << 16)]})
+            elif r < 0.79:
+                ops.append({'op': 'ESTIMATE_CATALOG', 'a': [rng.randrange(4)]})
             elif r < 0.9:
                 ops.append({'op': 'LLD', 'a': [rng.randrange(64), rng.randrange(1 << 16), rng.random() < 0.3, True, True]})
             else:
@@ -198,11 +204,12 @@ class Session:
         if self.cfg.get('panel'):
             d.panel('grp')
             self.ctx.probe('panel data (sample size = individuals)')
-            if permseed is not None and permseed % 2:
+            if (permseed is not None and permseed % 2) or (permseed is None and self.ctx.profile == 'est'
+                                                         and self.cfg['data_seed'] % 2):
                 # rows re-ordered after the data were declared panel (a second wave appended, a shuffle): the object
                 # sorts them again
                 idx2 = list(range(len(d.data)))
-                random.Random(permseed + 1).shuffle(idx2)
+                random.Random((permseed if permseed is not None else self.cfg['data_seed']) + 1).shuffle(idx2)
                 d.data = d.data.iloc[idx2]
                 self.ctx.probe('panel rows re-ordered after panel()')
         b = bio.BIOGEME(d, forms if (dictform or w is not None) else ll, parameters=self._params(threads, save))
@@ -272,7 +279,11 @@ class Session:
         x = {}
         for i, nm in enumerate(self.cfg['names']):
             v = self.cfg['init'][i] + rng.uniform(-1, 1)
+            if isinstance(seed, int) and (seed + i) % 7 == 3:
+                v = 0.0      # the value 0 is a value like any other (also when the starting value is not 0)
             bd = self.cfg['bounds'][i] if self.cfg.get('bounds') else None
+            if bd and self.cfg.get('eval_outside_bounds'):
+                bd = None    # evaluation profile: a likelihood is evaluated where it is asked, inside the bounds or not
             if bd:
                 if bd[0] is not None:
                     v = max(v, bd[0])
@@ -618,6 +629,21 @@ class Session:
             self._memo(('x', a[0], 'g'), 'gradient[sum of weighted per-observation gradients]', g, oracle='I04.agg')
             self._memo(('x', a[0], 'h'), 'hessian[sum of weighted per-observation Hessians]', h, oracle='I04.agg')
             self._memo(('x', a[0], 'b'), 'bhhh[sum of weighted outer products]', bh, oracle='I04.agg')
+            # the same per-observation results reported by name: entry [name][name2] of observation r is entry [i][j]
+            import biogeme.database as db_
+            lln, _, _ = specs.build_formulas(self.cfg)
+            named = lln.get_value_and_derivatives(betas=self.full(x), database=db_.Database('pon', self.table.copy()),
+                                                  aggregation=False, prepare_ids=True, gradient=True, hessian=True, bhhh=True,
+                                                  named_results=True)
+            nms = list(self.names)
+            for what_, plain_, byname_ in (('Hessian', out.hessians, named.hessians), ('BHHH', out.bhhhs, named.bhhhs)):
+                for r_ in range(len(wv)):
+                    for i_, n1_ in enumerate(nms):
+                        for j_, n2_ in enumerate(nms):
+                            v1_, v2_ = float(np.asarray(plain_[r_])[i_][j_]), float(byname_[r_][n1_][n2_])
+                            if not (v1_ == v2_ or abs(v1_ - v2_) <= 1e-12 * max(1.0, abs(v1_))):
+                                ctx.fail('I04.agg', f'per-observation {what_} reported by name: observation {r_} [{n1_}][{n2_}] = '
+                                                    f'{v2_!r}, the unnamed result holds {v1_!r}')
             # the same expression on the same Database object after one column was scaled in place
             import biogeme.database as db
             ll2, w2, _ = specs.build_formulas(self.cfg)
@@ -804,6 +830,45 @@ class Session:
                           float(r_.data.logLike), want_, rel=1e-7, oracle='I07.recompute')
                 ctx.probe('recycling next to a model whose name extends this one')
                 ctx.log(kind)
+        elif kind == 'ESTIMATE_CATALOG':
+            # a specification with a catalog whose alternatives own different parameters, estimated for every alternative
+            # in one call: the results of each alternative are the maximum of ITS likelihood, and the parameters that an
+            # alternative owns alone hold its estimates afterwards
+            import biogeme.biogeme as bio
+            import biogeme.database as db
+            import biogeme.expressions as ex
+            from biogeme.catalog import Catalog
+            from ..fs import REAL_OPEN
+            if not os.path.exists('biogeme.toml'):
+                with REAL_OPEN('biogeme.toml', 'w', encoding='utf-8') as f_:
+                    f_.write('')      # estimate_catalog builds objects that read the default parameter file: empty = defaults
+            shared = ex.Beta('ec_shared', 0.0, None, None, 0)
+            own_l = ex.Beta('ec_lin', 0.0, None, None, 0)
+            own_s = ex.Beta('ec_sq', 0.0, None, None, 0)
+            x0 = ex.Variable('x0')
+            cat = Catalog.from_dict('ec_shape', {'lin': own_l * x0, 'sq': own_s * x0 * x0})
+            dev = shared + cat - ex.Variable('w')
+            ll = -(dev * dev) - 0.1 * (shared * shared)
+            B = bio.BIOGEME(db.Database('ec', self.table.copy()), ll, parameters=self._params(1))
+            B.modelName = 'ec'
+            res = B.estimate_catalog()
+            xs = [float(v) for v in self.table['x0']]
+            ws = [float(v) for v in self.table['w']]
+
+            def ll_of(pw, s_, o_):
+                return sum(-(s_ + o_ * x_ ** pw - w_) ** 2 - 0.1 * s_ * s_ for x_, w_ in zip(xs, ws))
+            for cid, pw, own in (('ec_shape:lin', 1, own_l), ('ec_shape:sq', 2, own_s)):
+                if cid not in res:
+                    ctx.fail('I07.recompute', f'estimate_catalog returned results for {sorted(res)}; {cid} is missing')
+                est_ = {n_: float(v_) for n_, v_ in res[cid].get_beta_values().items()}
+                want_ = ll_of(pw, est_['ec_shared'], est_[own.name])
+                self._cmp(f'estimate_catalog [{cid}]: reported final log likelihood vs the likelihood at the returned estimates',
+                          float(res[cid].data.logLike), want_, rel=1e-7, oracle='I07.recompute')
+                if abs(float(own.initValue) - est_[own.name]) > 0:
+                    ctx.fail('I07.writeback', f'estimate_catalog [{cid}]: after the call the parameter {own.name}, owned by this '
+                                              f'alternative alone, holds {own.initValue!r}; its estimate is {est_[own.name]!r}')
+            ctx.probe('every alternative of a catalog estimated in one call')
+            ctx.log(kind)
         elif kind == 'CHANGE_INIT_KEPT':
             # the results of an estimation are a record: later by-name changes of the starting values of the object that
             # produced them do not alter them (checked for every kept record at the start of every operation)
@@ -916,6 +981,26 @@ class Session:
             self._cmp(f'estimate [{algo}]: reported gradient vs {who}', r.data.g, out.gradient, rel=1e-7, oracle=orc)
             self._cmp(f'estimate [{algo}]: reported Hessian vs {who}', r.data.H, out.hessian, rel=1e-7, oracle=orc)
             self._cmp(f'estimate [{algo}]: reported BHHH vs {who}', r.data.bhhh, out.bhhh, rel=1e-7, oracle=orc)
+        if self.cfg.get('panel'):
+            # panel data: the BHHH matrix is the sum over the INDIVIDUALS of the outer products of their gradients
+            # (reference: finite differences of the per-row reference values, added up per individual)
+            xf = self.full(x)
+            grads = {}
+            for j_, nm_ in enumerate(self.names):
+                h_ = 1e-6 * max(1.0, abs(x[nm_]))
+                up, dn = dict(xf), dict(xf)
+                up[nm_] += h_
+                dn[nm_] -= h_
+                ru = specs.ref_loglike(self.cfg, table, up, per_row=True)
+                rd = specs.ref_loglike(self.cfg, table, dn, per_row=True)
+                for r_, (u_, d_) in enumerate(zip(ru, rd)):
+                    grads.setdefault(float(table['grp'].iloc[r_]), np.zeros(len(self.names)))[j_] += (u_ - d_) / (2 * h_)
+            want_b = sum(np.outer(g_, g_) for g_ in grads.values())
+            got_b = np.asarray(r.data.bhhh, dtype=float)
+            if got_b.shape != want_b.shape or float(np.max(np.abs(got_b - want_b))) > 1e-4 * max(1.0, float(np.max(np.abs(want_b)))):
+                ctx.fail('I07.deriv', f'estimate [{algo}] on panel data: reported BHHH {got_b.tolist()} is not the sum over the '
+                                      f'individuals of the outer products of their gradients {want_b.tolist()}')
+            ctx.probe('BHHH on panel data compared with the per-individual reference')
         # (4) starting values of the formulas = estimates; fixed untouched
         for nm in self.cfg['names']:
             iv = float(rec['betas'][nm].initValue)
